@@ -1,12 +1,12 @@
-\* non-vacuity: BuildEndpointPolicyTree as it was before the fix (method map found by a Lookup of the new URL)
+\* non-vacuity: lookupNode as it was before the fix (a path wildcard remembered while host labels are consumed)
 \* must be refuted
 CONSTANTS
   MaxBody = 1
   MaxDecl = 2
   MaxUrl = 2
-  ReuseOnLookup = TRUE
+  ReuseOnLookup = FALSE
   FabricatedNorm = FALSE
-  WildHostCheck = TRUE
+  WildHostCheck = FALSE
   KF_Shadow = TRUE
   Source = "all"
   NChunks = 8
